@@ -203,11 +203,11 @@ def main(argv: list[str]) -> int:
     # gates: a check that observed nothing, or never reached a required class, is inconclusive
     if agg["evaluations"] == 0:
         agg["inconclusive"].append("the deciding oracle made zero evaluations")
+    extra = prop.finalize(agg, tier) if hasattr(prop, "finalize") else {}
     required = prop.required(tier) if hasattr(prop, "required") else []
     for c in required:
         if agg["classes"].get(c, 0) == 0 and agg["monitor"].get(c, 0) == 0:
             agg["inconclusive"].append(f"required class never observed: {c}")
-    extra = prop.finalize(agg, tier) if hasattr(prop, "finalize") else {}
 
     # violations vs known findings (matched by mechanism only; the file is never written here)
     open_known, fixed_known = load_known()
